@@ -120,7 +120,7 @@ func execC11(op string, a []sx) sx {
 			return *bad
 		}
 		runtime.KeepAlive(dst)
-	case "filecb":
+	case "filecb", "filedrop":
 		sch := schemaOf(a[2])
 		js, err := (&sch).Marshal()
 		if err != nil {
@@ -145,7 +145,11 @@ func execC11(op string, a []sx) sx {
 			cp := reflect.New(b.typ)
 			cp.Elem().Set(reflect.NewAt(b.typ, val).Elem())
 			retained = append(retained, cp)
-			banks = append(banks, rb)
+			if mode == "filecb" {
+				banks = append(banks, rb)
+			}
+			// mode filedrop: the record is kept, the bank is simply dropped (never closed): the memory the record
+			// points into must stay alive and must not be handed out again
 			churn(1)
 			if bad == nil {
 				bad = check(fmt.Sprintf("in-callback-record-%d", n), reflect.NewAt(b.typ, val).Elem())
@@ -162,6 +166,16 @@ func execC11(op string, a []sx) sx {
 			return T("decodeerr")
 		}
 		churn(1)
+		if mode == "filedrop" {
+			// more decoding: whatever is in the bank pool is taken out and written to
+			for k := 0; k < 3; k++ {
+				avro.ReadFile(bufio.NewReader(bytes.NewReader(file)), reflect.New(b.typ).Elem().Interface(), func(val unsafe.Pointer, rb *avro.ResourceBank) error {
+					rb.Close()
+					return nil
+				})
+				runtime.GC()
+			}
+		}
 		for i, p := range retained {
 			if bad == nil {
 				bad = check(fmt.Sprintf("record-%d-after-file", i+1), p.Elem())
@@ -381,7 +395,7 @@ func timeStrings(w *wgen, s *asch, v *aval) {
 
 func genC11(c *ctx) {
 	c.emitf("(facts)")
-	modes := []string{"after", "filecb", "encode"}
+	modes := []string{"after", "filecb", "filedrop", "encode"}
 	emit := func(w *wgen, rs *asch, target sx, v *aval) {
 		p := w.plan(rs, v, c.rng.Intn(2) == 0)
 		bs := encodeSpec(p, rs, v)
